@@ -250,7 +250,11 @@ func pairWorker(tier string, shard, nshard int) *WorkerOut {
 			out.Units++
 			out.Transitions += len(order)
 			pc := PairCase{Programs: progs, Order: append([]int{}, order...)}
-			for _, m := range runPairCase(pc, ss) {
+			wex, _ := json.Marshal(pc)
+			wdBegin(Finding{Prop: "C16", Unit: Unit{Opts: progs[0].Opts, History: progs[0].History, Tag: "pair"}, Key: fmt.Sprintf("%v order=%v", tp, order), Extra: wex}, out)
+			res := runPairCase(pc, ss)
+			wdEnd()
+			for _, m := range res {
 				c := msgClass(m)
 				if seen[c] {
 					continue
